@@ -36,6 +36,18 @@ pub trait VRead {
                     && final(self).remaining() == old(self).remaining().subrange(k as int, old(self).remaining().len() as int),
                 Err(_) => true,
             };
+    /// std::io::BufRead::fill_buf: "Returns the contents of the internal buffer, filling it with more
+    /// data from the inner reader if it is empty" - SOME non-empty prefix of the rest of the stream
+    /// (empty only at end of stream); nothing is consumed.
+    fn fill_buf(&mut self) -> (r: Result<&[u8], Error>)
+        ensures final(self).remaining() == old(self).remaining(),
+            r is Ok ==> r->Ok_0@.len() <= old(self).remaining().len()
+                && r->Ok_0@ == old(self).remaining().subrange(0, r->Ok_0@.len() as int)
+                && (old(self).remaining().len() > 0 ==> r->Ok_0@.len() > 0);
+    /// std::io::BufRead::consume(amt): amt must not exceed what fill_buf returned
+    fn consume(&mut self, amt: usize)
+        requires amt <= old(self).remaining().len(),
+        ensures final(self).remaining() == old(self).remaining().subrange(amt as int, old(self).remaining().len() as int);
 }
 /// further std::io::Read forms used by the cpio reader (src/rpm/payload.rs)
 pub trait VReadExt: VRead {
@@ -113,3 +125,7 @@ pub proof fn lemma_be16_dec16(s: Seq<u8>)
 {
     assert(be16(dec16(s)) =~= s);
 }
+
+/// R12: Ord::min / Ord::max on usize
+pub fn vmin(a: usize, b: usize) -> (r: usize) ensures r == (if a <= b { a } else { b }) { if a <= b { a } else { b } }
+pub fn vmax(a: usize, b: usize) -> (r: usize) ensures r == (if a >= b { a } else { b }) { if a >= b { a } else { b } }
